@@ -278,6 +278,20 @@ struct H {
     {
       const auto all = materials();
       for (size_t i = 0; i < all.size(); i += (thorough ? 1 : 4)) mats.push_back(all[i]);
+      // call histories across model objects: every ordered pair (i, j) of a small set of solids - same shear modulus and
+      // different Poisson ratios (0.25 gives lambda == mu exactly), the same ratio with another modulus, nu = 0 - is evaluated
+      // back to back, so that anything a call leaves behind for the next call (a memo keyed on part of the material) is met
+      std::vector<Mat> special;
+      for (double nu : {0.2, 0.25, 0.3, 0.35, 0.0}) {
+        const T mu = (T)1.5;
+        special.push_back({mu, (T)(2 * (f128)mu * (f128)(T)nu / (1 - 2 * (f128)(T)nu)), nu, 0});
+      }
+      special.push_back({(T)3, (T)3, 0.25, 1});
+      for (const Mat& a : special)
+        for (const Mat& b : special) {
+          mats.push_back(a);
+          mats.push_back(b);
+        }
     }
     for (const Mat& mt : mats) {
       const M model(ShearModulus<T>(mt.mu, P), LameFirstModulus<T>(mt.la, P));
